@@ -297,6 +297,9 @@ class _Run:
             return sym.intc(int(c["int"]), ty)
         if "def_pretty" in c and "promoted" not in c:
             return mk("constdef", (c["def_pretty"], ty))
+        if "promoted" in c and "promoted_agg" in c and not c.get("promoted_of"):
+            a = c["promoted_agg"]
+            return sym.agg(a["adt"], a["variant"], a["fields"], [self.konst(x) for x in a["vals"]])
         if "promoted" in c and len(c.get("promoted_of", [])) == 1 and ty.startswith("&"):
             # `&NAMED_CONST` promoted to a static: the reference to that constant
             return mk("constdef", (c["promoted_of"][0], ty[1:].lstrip("'static ").strip()))
@@ -662,6 +665,9 @@ class _Run:
         trait = callee.get("trait")
         nm = callee["name"]
         self_ty = callee.get("self_ty") or callee.get("impl_self") or ""
+        if trait in ("std::cmp::PartialOrd", "std::cmp::PartialEq") and nm in CMP:
+            # comparisons are operator nodes whatever the operand type (Integer's own ordering is C19's subject)
+            return self.binop(nm, a0, args[1])
         if target_fn is None:
             # ---- library semantics (trusted table) ----
             if name in TRANSPARENT:
@@ -735,7 +741,10 @@ class _Run:
                 if tag(a0) == "array":
                     return mk("vec", (), kids(a0))
                 return mk("vecof", (), (a0,))
-            r = sym.call(name, args, site, occ, extra=(self_ty,) if trait else ())
+            extra = (self_ty,) if trait else ()
+            if nm in ("query", "to_binary", "from_binary", "from_slice", "query_wasm_smart"):
+                extra = tuple(callee.get("args", []))
+            r = sym.call(name, args, site, occ, extra=extra)
             self.ev.unmodelled[name] = self.ev.unmodelled.get(name, 0) + 1
             self.havoc(st, t, raw, r)
             return r
